@@ -46,6 +46,20 @@ type c02Req struct {
 	Body   *string           `json:"body,omitempty"`   // raw body; nil = no body
 	CType  string            `json:"ctype,omitempty"`
 	XTest  *string           `json:"xtest,omitempty"` // value of the header "Xtest"
+	// Pad spaces are sent in front of Body (legal JSON white space): the size
+	// dimension of the body, kept out of the replay files and descriptions
+	Pad int `json:"pad,omitempty"`
+}
+
+// wire is the body as sent.
+func (r c02Req) wire() string {
+	if r.Body == nil {
+		return ""
+	}
+	if r.Pad > 0 {
+		return strings.Repeat(" ", r.Pad) + *r.Body
+	}
+	return *r.Body
 }
 
 func (r c02Req) clone() c02Req {
@@ -105,7 +119,11 @@ func (r c02Req) String() string {
 		b.WriteString(" ?" + r.Query)
 	}
 	if r.Body != nil {
-		fmt.Fprintf(&b, " body=%s", *r.Body)
+		if r.Pad > 0 {
+			fmt.Fprintf(&b, " body=<%d spaces>%s", r.Pad, *r.Body)
+		} else {
+			fmt.Fprintf(&b, " body=%s", *r.Body)
+		}
 	}
 	if r.CType != "" {
 		fmt.Fprintf(&b, " ctype=%s", r.CType)
@@ -332,8 +350,8 @@ const (
 // POST/PUT/PATCH with a JSON-ish content type (the rule the two handlers
 // share; the differences between them are HTTP-level matter).
 func c02EngineBody(r c02Req) interface{} {
-	if r.Body == nil || !(r.Method == "POST" || r.Method == "PUT" || r.Method == "PATCH") {
-		return nil
+	if r.Body == nil || r.Pad > 0 || !(r.Method == "POST" || r.Method == "PUT" || r.Method == "PATCH") {
+		return nil // (a padded body is HTTP-level matter: the handlers' size limit decides)
 	}
 	if !(r.CType == "" || strings.HasPrefix(r.CType, "application/json")) {
 		return nil
@@ -563,7 +581,7 @@ func (s *c02Server) do(pattern string, r c02Req, watchdog bool) (out c02Outcome)
 	}
 	var body io.Reader
 	if r.Body != nil {
-		body = strings.NewReader(*r.Body)
+		body = strings.NewReader(r.wire())
 	}
 	req := httptest.NewRequest(r.Method, target, body)
 	if r.CType != "" {
